@@ -5,6 +5,7 @@ import Driver.C18
 import Driver.C19
 import Driver.C08
 import Driver.C16
+import Driver.TA
 
 def main (args : List String) : IO UInt32 :=
   match args with
@@ -15,4 +16,5 @@ def main (args : List String) : IO UInt32 :=
   | ["c19"] => Driver.C19.main
   | ["c08"] => Driver.C08.main
   | ["c16"] => Driver.C16.main
+  | ["ta"] => Driver.TA.main
   | _ => do IO.eprintln "usage: nridrv <property>"; return 2
